@@ -5,6 +5,7 @@ import RedoModel.LogRec
 import RedoModel.Commit
 import RedoModel.Makeflags
 import RedoModel.StampStr
+import RedoModel.Argv
 import RedoModel.DepsWire
 import RedoModel.CoreWire
 import RedoModel.TokensWire
@@ -141,6 +142,11 @@ def respond (line : String) : String :=
     match sz.toNat?, ino.toNat?, mode.toNat?, uid.toNat?, gid.toNat? with
     | some sz, some ino, some mode, some uid, some gid =>
       String.ofList (StampStr.render { mtime := mt.toList, size := sz, ino := ino, mode := mode, uid := uid, gid := gid })
+    | _, _, _, _, _ => "bad-op"
+  | ["argv", v, x, fl, d, a1, a2, a3] =>
+    match dec fl, dec d, dec a1, dec a2, dec a3 with
+    | some fl, some d, some a1, some a2, some a3 =>
+      ",".intercalate ((Argv.argv (v == "1") (x == "1") fl d a1 a2 a3).map enc)
     | _, _, _, _, _ => "bad-op"
   | ["makeflags", x] =>
     match dec x with
